@@ -776,9 +776,9 @@ type hEval struct {
 	// relaxed[struct value][field id]: the field may be absent or, if present, must have the given value
 	relaxed map[*TVal]map[int]bool
 	// provenance of each expected root/nested field value (for triage facts)
-	used                                                   [nHKind]int
+	used                                                                     [nHKind]int
 	usedFallbackBody, usedTraceback, usedZero, usedNoValue, usedFormFallback int
-	errField                                               *TField
+	errField                                                                 *TField
 }
 
 func hZeroVal(t *TType) *TVal { return &TVal{T: t} }
